@@ -294,7 +294,10 @@ Definition u256_div_orig := u256_div_gen false.
 Inductive opk :=
 | OShl | OShr | OAdd | OSub | OMul | OCmp | OLt | OLe | OGt | OGe | OEq
 | OAnd | OOr | OXor | ONot | OTo64 | OTo128 | OTo256 | OIsZero | OAs64
-| OLsh64 | ORsh64 | OAdd64 | OMul64 | OQuoRem | OQuoRem64 | ODiv | OMod | ODiv64 | OMod64 | OCmp64.
+| OLsh64 | ORsh64 | OAdd64 | OMul64 | OQuoRem | OQuoRem64 | ODiv | OMod | ODiv64 | OMod64 | OCmp64
+(* constructors: methods Zero / MaxValue / Set64 and the generic ZeroUint / OneUint / From64 of unint.go
+   (OneUint = ZeroUint().Set64(1), From64 v = ZeroUint().Set64(v)) *)
+| OZero | OMax | OSet64 | OZeroU | OOneU | OFrom64.
 
 Inductive obs := Limbs (l : list Z) | Limbs2 (l l' : list Z) | IntV (z : Z) | PanicV | FuelV.
 
@@ -324,6 +327,7 @@ Definition run64 (o : opk) (a b : list Z) (n : Z) : obs :=
   | OIsZero => IntV (b2z (x =? 0)) | OAs64 => Limbs [x]
   | OLsh64 => let '(v, c) := leftshift64 x n y in Limbs [v; c]
   | ORsh64 => let '(v, c) := rightshift64 x n y in Limbs [v; c]
+  | OZero | OZeroU => Limbs [0] | OMax => Limbs [W - 1] | OSet64 | OFrom64 => Limbs [y] | OOneU => Limbs [1]
   | _ => FuelV
   end.
 
@@ -353,6 +357,8 @@ Definition run128 (o : opk) (a b : list Z) (n : Z) : obs :=
   | ONot => Limbs [not64 (h0 x); not64 (h1 x)]
   | OTo64 => Limbs [h0 x] | OTo128 => Limbs (l128 x) | OTo256 => Limbs [h0 x; h1 x; 0; 0]
   | OIsZero => IntV (b2z ((h0 x =? 0) && (h1 x =? 0))) | OAs64 => Limbs [h0 x]
+  | OZero | OZeroU => Limbs (l128 (mk128 0 0)) | OMax => Limbs (l128 (mk128 (W - 1) (W - 1)))
+  | OSet64 | OFrom64 => Limbs (l128 (mk128 0 y64)) | OOneU => Limbs (l128 (mk128 0 1))
   | _ => FuelV
   end.
 
@@ -374,6 +380,8 @@ Definition run256 (o : opk) (a b : list Z) (n : Z) : obs :=
   | ONot => Limbs [not64 (q0 x); not64 (q1 x); not64 (q2 x); not64 (q3 x)]
   | OTo64 => Limbs [q0 x] | OTo128 => Limbs [q0 x; q1 x] | OTo256 => Limbs (l256 x)
   | OIsZero => IntV (b2z (u256_iszero x)) | OAs64 => Limbs [q0 x]
+  | OZero | OZeroU => Limbs (l256 (mk256 0 0 0 0)) | OMax => Limbs (l256 (mk256 (W - 1) (W - 1) (W - 1) (W - 1)))
+  | OSet64 | OFrom64 => Limbs (l256 (mk256 0 0 0 (q0 y))) | OOneU => Limbs (l256 (mk256 0 0 0 1))
   | _ => FuelV
   end.
 
